@@ -2,6 +2,7 @@
 
 from hypothesis import strategies as st
 
+from tola.assembly.fragment import Fragment
 from tola.fasta.index import FastaIndex, index_fasta_file
 
 from vf import conv, fa, gen, ref
@@ -115,6 +116,18 @@ def body(case, rec):
                 rec.count("intervals")
                 if got != r["seq"][a - 1 : b]:
                     raise Violation(f"{r['name']}:{a}-{b}: random access returned {got[:60]!r}, file has {r['seq'][a - 1 : b][:60]!r}")
+                if k % 5 == 0:
+                    # the documented chunk iterators, with all chunks COLLECTED before any is read
+                    chunks = list(must(fai.get_sequence_iter, Fragment(r["name"], a, b, 1), what="get_sequence_iter"))
+                    joined = b"".join(c.getvalue() for c in chunks)
+                    if joined != r["seq"][a - 1 : b]:
+                        raise Violation(f"{r['name']}:{a}-{b}: chunks of get_sequence_iter (collected, then read) give {joined[:60]!r}, file has {r['seq'][a - 1 : b][:60]!r}")
+                    rchunks = list(must(fai.get_sequence_iter, Fragment(r["name"], a, b, -1), what="get_sequence_iter(-)"))
+                    rjoined = b"".join(c.getvalue() for c in rchunks)
+                    if rjoined != ref.revcomp(r["seq"][a - 1 : b]):
+                        raise Violation(f"{r['name']}:{a}-{b}(-): chunks of get_sequence_iter give {rjoined[:60]!r}, want {ref.revcomp(r['seq'][a - 1 : b])[:60]!r}")
+                    if any(len(c.getvalue()) > buf for c in chunks + rchunks):
+                        raise Violation(f"{r['name']}:{a}-{b}: a chunk is longer than the buffer size {buf}")
             # derived assembly
             got_asm = conv.plain_assembly(asm)
             want_asm = []
@@ -202,6 +215,44 @@ def body_negative(case, rec):
 
 BUFFERS = [1, 2, 3, 7, 64, 250000]
 
+LONG_WIDTHS = [8191, 8192, 8193, 65535, 65536, 65537, 131072, 1048575, 1048576, 1048577, 1348576]
+
+
+def pseudo_residues(n, salt):
+    """n residues, aperiodic (SHA-256 counter stream), mostly ACGT with runs of N and a few other symbols"""
+    import hashlib
+
+    out = bytearray()
+    k = 0
+    while len(out) < n:
+        out += hashlib.sha256(f"{salt}:{k}".encode()).digest()
+        k += 1
+    table = bytes(b"ACGTacgt"[i % 8] if i < 248 else b"NnRy*-NN"[i - 248] for i in range(256))
+    seq = bytearray(bytes(out[:n]).translate(table))
+    # a few longer N runs, two of them across a multiple of 2**16 / the end
+    for at, ln in ((n // 3, 700), (65536 - 3, 9), (n - 5, 5)):
+        if 0 <= at and at + ln <= n:
+            seq[at : at + ln] = b"N" * ln
+    return seq.decode("latin-1")
+
+
+def long_line_cases(tier, shard, nshards):
+    """unwrapped or very widely wrapped records: line widths around 2**13, 2**16, 2**20 and beyond"""
+    k = 0
+    for width in LONG_WIDTHS:
+        for eol in ("\n", "\r\n"):
+            for buf in (250000, 4096):
+                k += 1
+                if k % nshards != shard:
+                    continue
+                recs = [
+                    ["long1", "", pseudo_residues(2 * width + 17, f"a{width}"), width, eol],
+                    ["one_line", "unwrapped", pseudo_residues(width, f"b{width}"), width, eol],
+                    ["short_last", "", pseudo_residues(width + 1, f"c{width}"), width, eol],
+                ]
+                pairs = [[(i * 7919 + width) % 10**6, (i * 104729 + 13) % 10**6] for i in range(12)]
+                yield {"fasta": {"records": recs, "final_newline": k % 3 != 0}, "buffer": buf, "pairs": pairs}
+
 
 @st.composite
 def cases(draw):
@@ -230,6 +281,8 @@ def negative_cases(draw):
 SUBS = [
     Sub("index", kind="hyp", strategy=cases, body=body,
         budget={"quick": 8000, "thorough": 200000}, desc="index quintuples, random access, derived assembly, stream-back, .fai text vs reference reader"),
+    Sub("long_lines", kind="enum", cases=long_line_cases, body=body,
+        budget={"quick": 44, "thorough": 44}, desc="records with sequence lines of 8 KiB - 1.3 MiB (widths around 2**13, 2**16, 2**20), LF/CRLF, two buffer sizes; same oracle as 'index'"),
     Sub("module_cli", kind="hyp", strategy=cases, body=body_module_cli, shrink=False,
         budget={"quick": 96, "thorough": 2000}, desc="`python -m tola.fasta.index FILE` (the module's command-line entry) prints the reference .fai rows"),
     Sub("negative", kind="hyp", strategy=negative_cases, body=body_negative,
